@@ -195,9 +195,9 @@ def fail_text(rec):
 # repaired in /repo: if one of them comes back it is a VIOLATION (no classifier below returns these ids any more; the guard also
 # covers the shared classifier).  f705aba LIMIT with a bare OFFSET on sqlite; 148aed7 never emit `--`; d92afac table references
 # resolve relative to the enclosing modules; 6d6f07a append does not count a wildcard as one column; 8d54bf7 an aggregate ends
-# the sort in effect; 21fe768 the sort keys of a take are not selected into a SELECT DISTINCT (F72, itself a regression of 456bdcd)
+# the sort in effect; 21fe768 the sort keys of a take are not selected into a SELECT DISTINCT (F72, itself a regression of 456bdcd); d060422 a sorted take in front of a distinct splits (F74, a regression of 21fe768)
 REPAIRED = {"F27-offset-without-limit", "F03-double-minus", "F60-module-sibling-ref", "F63-append-arity-wildcard",
-            "F65-sort-survives-aggregate", "F72-distinct-includes-carried-sort-key"}
+            "F65-sort-survives-aggregate", "F72-distinct-includes-carried-sort-key", "F74-take-distinct-then-more-panics"}
 
 
 # C06 ids that record, for pairs produced by a rewrite, a defect that relational.json has under a shared id
@@ -240,9 +240,8 @@ def classify_first(rec):
             return "F72-distinct-includes-carried-sort-key"      # in REPAIRED: classify_side turns it into None
         return None
     if rec["tag"] == "panic":
-        # F74 (regression of 21fe768 = the F29 panic re-opened for one shape): `sort | take | distinct | more` -- the take no longer
-        # requires its sort keys when a distinct follows, but with another transform behind the distinct the sub-query's ORDER BY
-        # still names them
+        # F74 (regression of 21fe768 = the F29 panic re-opened for `sort | take | distinct | more`) is repaired by d060422 (a sorted
+        # take in front of a distinct gets a SELECT of its own): the id is in REPAIRED, the shape is recognised only to say so
         txt = fail_text(rec)
         if "name of this column has not been to be set before generating SQL" in txt and "sql/gen_expr.rs" in txt:
             m = re.search(r"\bsort\b.*?\btake\b.*?group \{[^{}]*\} \(take 1\)(.*)", rec["prql"], re.S)
@@ -406,7 +405,9 @@ def classify_c06(rec):
             # before the RIGHT JOIN's null-extension: rows with a NULL in the filtered column survive `WHERE x > 0`.
             # The emitted SQL is right; the engine is not.
             return "oracle-sqlite-right-join-pushdown"
-        if re.search(r"(?m)^take [^\n]*\nsort [^\n]*\ntake [^\n]*\n(?:group|aggregate)", prql) and len(re.findall(r"\bLIMIT\b", sql)) <= 1:
+        # take, sort, (select / derive lines), take, then a group / aggregate: ONE limit in the SQL where the two takes under different
+        # sorts need two
+        if re.search(r"(?m)^take [^\n]*\nsort [^\n]*\n(?:(?:select|derive) [^\n]*\n)*take [^\n]*\n(?:group|aggregate)", prql) and len(re.findall(r"\bLIMIT\b", sql)) <= 1:
             return "F37-takes-merged-across-sort-before-group"
         # an OVER clause lost its ORDER BY relative to the base program's SQL (the same window has one there)
         # ... and no LIMIT lost its ORDER BY (that would be a different defect: a positional take over an unordered SELECT)
